@@ -33,6 +33,7 @@ var swap = map[string]string{
 	"sync":          "verif/simos/sync",
 	"math/rand":     "verif/simos/rand",
 	"log":           "verif/simos/log",
+	"bufio":         "verif/simos/bufio",
 }
 
 var raceMode = flag.Bool("race", false, "also instrument memory accesses for the in-simulator race checker")
@@ -785,6 +786,38 @@ func (rw *rewriter) raceExprs(f *ast.File) {
 			return nil
 		}
 		switch x := e.(type) {
+		case *ast.Ident:
+			// package-level variable of the instrumented package
+			v, ok := rw.info.Uses[x].(*types.Var)
+			if !ok || v.IsField() || v.Pkg() != rw.pkg || v.Parent() != rw.pkg.Scope() {
+				return nil
+			}
+			done[x] = true
+			fn := "R"
+			if writes[x] {
+				fn = "W"
+			}
+			call := rw.simrt(fn, &ast.UnaryExpr{Op: token.AND, X: x}, str(rw.file+":var "+x.Name+"@"+rw.posSite(x)))
+			return &ast.ParenExpr{X: &ast.StarExpr{X: call}}
+		case *ast.StarExpr:
+			// *p = v where p points to a struct: every field is written
+			if !writes[x] {
+				return nil
+			}
+			t := rw.typeOf(x.X)
+			if t == nil {
+				return nil
+			}
+			pt, ok := t.Underlying().(*types.Pointer)
+			if !ok {
+				return nil
+			}
+			if _, ok := pt.Elem().Underlying().(*types.Struct); !ok {
+				return nil
+			}
+			done[x] = true
+			x.X = rw.simrt("WStruct", x.X, str(rw.file+":*struct@"+rw.posSite(x)))
+			return nil
 		case *ast.SelectorExpr:
 			if !rw.isFieldThroughPointer(x) {
 				return nil
@@ -848,7 +881,7 @@ func (rw *rewriter) raceExprs(f *ast.File) {
 		// in-place edits for index / call expressions
 		if e, ok := n.(ast.Expr); ok {
 			switch e.(type) {
-			case *ast.IndexExpr, *ast.CallExpr:
+			case *ast.IndexExpr, *ast.CallExpr, *ast.StarExpr:
 				repl(e)
 			}
 		}
